@@ -51,7 +51,9 @@ theorem CInv_updateCounters (hl : H.Lawful (Entry.lt PV.lt)) (s : PosPQ) (b : Bo
     simp only [PosPQ.updateCounters, if_true]
     have hc := doMaintenance_ctr hl { s with nIns := s.nIns + 1 } draw
     split
-    · simp only [PosPQ.CInv, hc.1, hc.2.1]; omega
+    · split
+      · simp only [PosPQ.CInv, hc.1, hc.2.1]; omega
+      · simp only [PosPQ.CInv, hc.1, hc.2.1, hc.2.2.1]; simp_all [PosPQ.CInv]; omega
     · simp_all [PosPQ.CInv]; omega
 
 /-- `regularMinMax`: the reported minimum is below every regular entry's priority and is attained -/
@@ -192,7 +194,9 @@ theorem PosPQ.RP.updateCounters (hl : H.Lawful (Entry.lt PV.lt)) {s : PosPQ} {L}
     split
     · have h1 : PosPQ.RP { s with nIns := s.nIns + 1 } L := h.of_q rfl
       obtain ⟨L', hr, hlen⟩ := h1.doMaintenance_any hl draw
-      exact ⟨L', hr.of_q rfl, hlen⟩
+      split
+      · exact ⟨L', hr.of_q rfl, hlen⟩
+      · exact ⟨L', hr, hlen⟩
     · exact ⟨L, h.of_q rfl, rfl⟩
 
 theorem popEntry_len (hl : H.Lawful (Entry.lt PV.lt)) {q q' : PQ PV} {e : Entry PV}
@@ -226,12 +230,16 @@ theorem popleft_counters (hl : H.Lawful (Entry.lt PV.lt)) (draw : Nat → Rat) {
     have hpos : q'.pq.length > 0 := by omega
     simp [PosPQ.updateCounters, PosPQ.len, hpos]
 
+/-- `update_counters(True)`: length and the two counters; the maintenance mark advances to the
+    throughput exactly when the throughput test fires *and* `do_maintenance()` reports the round as
+    done (`maintenanceDone` of the state it is called in) -/
 theorem updateCounters_true_spec (hl : H.Lawful (Entry.lt PV.lt)) (s : PosPQ) (draw : Nat → Rat) :
     (PosPQ.updateCounters H s true draw).len = s.len ∧
     (PosPQ.updateCounters H s true draw).nIns = s.nIns + 1 ∧
     (PosPQ.updateCounters H s true draw).nRem = s.nRem ∧
     ((min (s.nIns + 1) s.nRem > max 10 s.len + s.lastMaint ∧
-        (PosPQ.updateCounters H s true draw).lastMaint = min (s.nIns + 1) s.nRem) ∨
+        (PosPQ.updateCounters H s true draw).lastMaint =
+          if PosPQ.maintenanceDone { s with nIns := s.nIns + 1 } then min (s.nIns + 1) s.nRem else s.lastMaint) ∨
      (¬ min (s.nIns + 1) s.nRem > max 10 s.len + s.lastMaint ∧
         (PosPQ.updateCounters H s true draw).lastMaint = s.lastMaint)) := by
   have hc := doMaintenance_ctr hl { s with nIns := s.nIns + 1 } draw
@@ -239,9 +247,42 @@ theorem updateCounters_true_spec (hl : H.Lawful (Entry.lt PV.lt)) (s : PosPQ) (d
   simp only [PosPQ.updateCounters, if_true, PosPQ.len]
   by_cases htr : min (s.nIns + 1) s.nRem > max 10 s.q.pq.length + s.lastMaint
   · simp only [htr, if_true]
-    exact ⟨hc.2.2.2.1, hc.1, hc.2.1, Or.inl ⟨trivial, trivial⟩⟩
+    by_cases hd : PosPQ.maintenanceDone { s with nIns := s.nIns + 1 } = true
+    · simp only [hd, if_true]
+      exact ⟨hc.2.2.2.1, hc.1, hc.2.1, Or.inl ⟨trivial, trivial⟩⟩
+    · simp only [hd, Bool.false_eq_true, if_false]
+      exact ⟨hc.2.2.2.1, hc.1, hc.2.1, Or.inl ⟨trivial, hc.2.2.1⟩⟩
   · simp only [htr, if_false]
     exact ⟨trivial, trivial, trivial, Or.inr ⟨by first | exact htr | exact (fun h => h) | trivial, trivial⟩⟩
+
+/-- after a *regular* entry stamped with the current `n_inserted` has been added, `do_maintenance()`
+    always reports done: a long-waiting entry is older than the new one, so there are two regular
+    entries -/
+theorem maintenanceDone_after_add (hl : H.Lawful (Entry.lt PV.lt)) (s : PosPQ) (x : Nat) (pv : PV)
+    (hc : pv.cls ≠ 0) (hi : pv.insertedAt = s.nIns) :
+    PosPQ.maintenanceDone { s with q := s.q.add H PV.lt pv x, nIns := s.nIns + 1 } = true := by
+  have hperm : (s.q.add H PV.lt pv x).pq.Perm (⟨pv, s.q.seq, x⟩ :: s.q.pq) := by
+    simp only [PQ.add]; exact hl.push_perm _ _
+  simp only [PosPQ.maintenanceDone, PosPQ.len, Bool.or_eq_true, Bool.not_eq_true', Bool.and_eq_false_iff,
+    decide_eq_false_iff_not, Nat.not_lt]
+  by_cases hany : (s.q.add H PV.lt pv x).pq.any
+      (PosPQ.isStraggler (s.nIns + 1 - (s.q.add H PV.lt pv x).pq.length)) = true
+  · right; right
+    obtain ⟨e, he, hs⟩ := List.any_eq_true.mp hany
+    simp only [PosPQ.isStraggler, Bool.and_eq_true, bne_iff_ne, ne_eq, decide_eq_true_eq] at hs
+    have hlen : (s.q.add H PV.lt pv x).pq.length = s.q.pq.length + 1 := by rw [hperm.length_eq]; simp
+    have he' : e ∈ (⟨pv, s.q.seq, x⟩ : Entry PV) :: s.q.pq := hperm.subset he
+    have hold : e ∈ s.q.pq := by
+      rcases List.mem_cons.mp he' with rfl | h
+      · exfalso; have := hs.2; simp only [hi, hlen] at this; omega
+      · exact h
+    rw [hperm.countP_eq]
+    have hpos : 0 < s.q.pq.countP (fun e => e.pri.cls != 0) :=
+      List.countP_pos_iff.mpr ⟨e, hold, by simpa using hs.1⟩
+    have hnew : (pv.cls != 0) = true := by simpa using hc
+    simp only [List.countP_cons, hnew, if_true]
+    omega
+  · right; left; simpa using hany
 
 theorem appendPri_counters (hl : H.Lawful (Entry.lt PV.lt)) (draw : Nat → Rat) (s : PosPQ) (x : Nat) (p : Rat) :
     (s.appendPri H x p draw).len = s.len + 1 ∧ (s.appendPri H x p draw).nIns = s.nIns + 1 ∧
@@ -253,7 +294,8 @@ theorem appendPri_counters (hl : H.Lawful (Entry.lt PV.lt)) (draw : Nat → Rat)
   have hadd : (s.q.add H PV.lt { base := p, insertedAt := s.nIns } x).pq.length = s.q.pq.length + 1 := by
     simp only [PQ.add]; rw [(hl.push_perm _ _).length_eq]; simp
   have := updateCounters_true_spec hl { s with q := s.q.add H PV.lt { base := p, insertedAt := s.nIns } x } draw
-  simp only [PosPQ.len, hadd] at this
+  have hdone := maintenanceDone_after_add hl s x { base := p, insertedAt := s.nIns } (by simp) rfl
+  simp only [PosPQ.len, hadd, hdone, if_true] at this
   simpa only [PosPQ.appendPri, PosPQ.len] using this
 
 /-- `r * x` for `0 ≤ r < 1` and `x ≤ 0` lies in `[x, 0]` -/
